@@ -8,6 +8,10 @@ const fMinerV2 = "poc/engine.v2/pocminer/miner/strategy.go"
 
 func init() {
 	variants["C17"] = []variant{
+		{Name: "current task handed out by an accessor that takes no lock", Kill: true, Rule: "C17-LATEST", File: fSuperior,
+			Old: "func (ls *LocalSuperior) RemoveTask(id uuid.UUID) {\n", New: "func (ls *LocalSuperior) CurrentTask() protocol.Message {\n\treturn ls.latestTask\n}\n\nfunc (ls *LocalSuperior) RemoveTask(id uuid.UUID) {\n"},
+		{Name: "RemoveTask clears the current task before it takes the task lock", Kill: true, Rule: "C17-LATEST", File: fSuperior,
+			Old: "func (ls *LocalSuperior) RemoveTask(id uuid.UUID) {\n\tls.taskCacheLock.Lock()\n", New: "func (ls *LocalSuperior) RemoveTask(id uuid.UUID) {\n\tif ls.latestTask != nil && ls.latestTask.ID() == id {\n\t\tls.latestTask = nil\n\t}\n\tls.taskCacheLock.Lock()\n"},
 		{Name: "report sent while holding the task lock again", Kill: true, Rule: "C17-BLOCK", File: fSuperior,
 			Old: "\tv, ok := ls.taskCache.Get(resp.Msg.ID())\n\tls.taskCacheLock.Unlock()\n\tif !ok {", New: "\tv, ok := ls.taskCache.Get(resp.Msg.ID())\n\tdefer ls.taskCacheLock.Unlock()\n\tif !ok {"},
 		{Name: "receive routine hands frames over unconditionally again", Kill: true, Rule: "C17-INTR", File: fConn,
